@@ -45,7 +45,7 @@ def plan(tier):
 
 
 def n_histories(tier):
-    return 60 if tier == 'thorough' else 30
+    return 180 if tier == 'thorough' else 30
 
 
 def gen_history(rng, tier):
